@@ -219,6 +219,7 @@ func c05Worker(w *core.WorkerCtx) {
 			for _, f := range mels {
 				for _, t := range mels {
 					c05Transfer(r, a, f, t, false)
+					c05Transfer(r, a, f, t, true) // the same through Drain, in to a sink that holds something already
 				}
 			}
 		}
@@ -258,6 +259,8 @@ func c05Worker(w *core.WorkerCtx) {
 			}
 			t := spice.Melange{Currency: math.MaxUint64 - a.Currency, SupplementaryCurrency: (e18 - a.SupplementaryCurrency + uint64(rng.Intn(3)) + e18 - 1) % e18}
 			c05Transfer(r, a, f, t, false)
+			c05Transfer(r, a, f, t, true)
+			c05Transfer(r, f, f, t, true) // the whole source drained in to a sink near the top
 			c05Supply(r, t, a)
 		case 3:
 			c05New(r, c05RandU64(rng, false), rng.Uint64()%(2*e18))
